@@ -32,5 +32,15 @@ out = {
     "own_property_check_catches_it": checks.get(meta["property"], {}).get("exit") == 1,
     "other_checks_silent": sorted(p for p, r in checks.items() if r["exit"] != 1 and p != meta["property"]),
 }
+out["evaluations_in_order"] = [
+    {"time": e["time"], "check": p, "exit": r["exit"], "signatures": r["signatures"]}
+    for e in ev for p, r in e.get("checks", {}).items()
+]
+old_meta = os.path.join(dst, 'meta.json')
+if os.path.exists(old_meta):
+    prev = json.load(open(old_meta))
+    for k in ("history", "rebased"):
+        if k in prev:
+            out[k] = prev[k]
 json.dump(out, open(os.path.join(dst, 'meta.json'), 'w'), indent=1)
 print(name, "caught_by", out["caught_by"], "own:", out["own_property_check_catches_it"])
